@@ -2024,6 +2024,64 @@ silent_all("server-context-built-by-deferred-free-helper", [
 func makeServerContext(ctx context.Context) context.Context {"""},
 ], "the unary path builds the server context through one more synchronous helper", ["C10", "C04", "C13"])
 
+v("C16", "inproc-info-raw-method", "inprocgrpc/in_process.go",
+  """	if method == "" || method[0] != '/' {
+		method = "/" + method
+	}
+	ctx, err := internal.ApplyPerRPCCreds(ctx, copts, fmt.Sprintf("inproc:0%s", method), true)
+	if err != nil {
+		return nil, err
+	}
+
+	strs := strings.SplitN(method[1:], "/", 2)
+	if len(strs) != 2 {
+		return nil, status.Errorf(codes.Unimplemented, "malformed method name: %q", method)
+	}
+	// The given StreamDesc""", """	full := method
+	if full == "" || full[0] != '/' {
+		full = "/" + full
+	}
+	ctx, err := internal.ApplyPerRPCCreds(ctx, copts, fmt.Sprintf("inproc:0%s", full), true)
+	if err != nil {
+		return nil, err
+	}
+
+	strs := strings.SplitN(full[1:], "/", 2)
+	if len(strs) != 2 {
+		return nil, status.Errorf(codes.Unimplemented, "malformed method name: %q", method)
+	}
+	// The given StreamDesc""", "R3", "full-method", "the normalised name lives in a second variable; the stream info still gets the raw parameter")
+
+v("C08", "second-message-error-only-if-not-done", "httpgrpc/client.go",
+  """					if cs.rErr == nil {
+						cs.rErr = status.Error(codes.Internal, "method should return 1 response message but server sent >1")""", """					if !cs.done {
+						cs.rErr = status.Error(codes.Internal, "method should return 1 response message but server sent >1")""",
+  "R1", "second-message-is-error", "the >1-response error is recorded only while the call is in flight: after a complete reply, return cs.rErr is nil")
+v("C08", "server-empty-message-fast-path", "httpgrpc/server.go",
+  """	err = readProtoMessage(s.r.Body, s.codec, size, m)
+	if err == io.EOF {""", """	if size == 0 {
+		return s.codec.Unmarshal(nil, m)
+	}
+	err = readProtoMessage(s.r.Body, s.codec, size, m)
+	if err == io.EOF {""", "R3", "no-success-before-probe", "an empty request returns before the second-request probe")
+silent_all("second-message-error-guard-clause", [
+    {"file": "httpgrpc/client.go", "old": """					if cs.rErr == nil {
+						cs.rErr = status.Error(codes.Internal, "method should return 1 response message but server sent >1")
+						cs.done = true
+						// we won't be reading from the channel anymore, so we must
+						// cancel the context so that doHttpCall doesn't hang trying
+						// to write to channel
+						cs.cancel()
+					}
+					return cs.rErr""", "new": """					if cs.rErr != nil {
+						return cs.rErr
+					}
+					cs.rErr = status.Error(codes.Internal, "method should return 1 response message but server sent >1")
+					cs.done = true
+					cs.cancel()
+					return cs.rErr"""},
+], "the >1-response branch written with a guard clause", ["C08", "C02", "C05", "C07"])
+
 # ------------------------------------------------------------------ wave-2 rules (C15-C20)
 v("C15", "methods-scratch-slice-reused", "server.go",
   """	for _, svc := range m {
